@@ -2,7 +2,7 @@
 # allthorough.sh [seed] : every thorough check once (evidence to a scratch dir), one line per check
 cd "$(dirname "$0")/.."
 s=${1:-0}
-for i in $(seq -w 1 20); do
+for i in ${CHECKS:-$(seq -w 1 20)}; do
   t0=$(date +%s)
   out=$(VERIF_SEED=$s VERIF_EVIDENCE_DIR=${VERIF_EVIDENCE_DIR:-/tmp/ev_allthorough} VERIF_REPLAY_DIR=${VERIF_REPLAY_DIR:-/tmp/ev_allthorough} ./check C$i thorough 2>&1); rc=$?
   echo "seed=$s C$i thorough exit=$rc $(( $(date +%s) - t0 ))s $(echo "$out" | grep -E '^C[0-9]+ thorough' | cut -c1-200)"
